@@ -465,6 +465,15 @@ func verifFileSync(file *os.File) error {
 	return nil
 }
 
+func verifOsSameFile(a, b os.FileInfo) bool {
+	if verifFS == nil {
+		return os.SameFile(a, b)
+	}
+	left, ok1 := a.(verifFileInfo)
+	right, ok2 := b.(verifFileInfo)
+	return ok1 && ok2 && left.name == right.name && left.isDir == right.isDir
+}
+
 func verifWalkDir(root string, fn fs.WalkDirFunc) error {
 	if verifFS == nil {
 		return filepath.WalkDir(root, fn)
